@@ -32,7 +32,7 @@ FragNames == {T.frags[i][1] : i \in DOMAIN T.frags}
 FirstDef(name) == CHOOSE i \in DOMAIN T.frags : T.frags[i][1] = name /\ \A j \in 1..(i - 1) : T.frags[j][1] # name
 TemplateOf(name) ==
   LET fs == F!DenoteF(T.frags[FirstDef(name)][2], T.fragcoarse) IN
-  [atoms |-> fs.atoms, bonds |-> fs.bonds, desc |-> fs.desc]
+  [atoms |-> fs.atoms, bonds |-> fs.bonds, desc |-> fs.desc, marks |-> fs.marks]
 
 Cfg == [ names |-> Names, edges |-> BEdges,
          lib |-> [name \in FragNames |-> TemplateOf(name)],
@@ -65,6 +65,51 @@ C10_SharedBelongsToBoth ==
   NoBlocks \/ \A n \in HeavyFine : n.id \in DOMAIN WitMap => FragOf(n) = ToSet(T.ref.atoms[WitMap[n.id]][4])
 
 HasRef == "ref" \in DOMAIN T
+
+(* ---------------- named deviation EZ_GlobalIndexOrder (known finding C15) ---------------- *)
+(* What the implementation actually does with slash marks: every mark stores its character on the atom *)
+(* before it and on the atom behind it (per ATOM, later marks overwrite); after merging, a double bond  *)
+(* is interpreted by pysmiles' eight-case table, which looks at the characters of the two ligand ATOMS  *)
+(* and at whether the first ligand has a smaller global index than its anchor.  The deviation is        *)
+(* computed from the configuration alone (instances <<coarse node, template atom>> ordered              *)
+(* lexicographically = the global numbering of heavy atoms without shared atoms; inter-fragment bonds   *)
+(* = the dedicated descriptor pairs).                                                                  *)
+DInsts(C) == UNION {{<<k, i>> : i \in 0..(NAtoms(Tpl(C, k)) - 1)} : k \in {kk \in CoarseIds(C) : IsReal(C, kk)}}
+ILt(p, q) == p[1] < q[1] \/ (p[1] = q[1] /\ p[2] < q[2])
+MarkLeft(m) == IF m.left = -1 THEN 0 ELSE m.left
+TouchedBy(t, i) == {j \in DOMAIN t.marks : t.marks[j].right = i \/ MarkLeft(t.marks[j]) = i}
+(* ... and a fragment that is a single node when it is read (a bracket atom without hydrogens, such as [O-]) *)
+(* returns before its mark characters are stored                                                           *)
+SingleNodeFragment(t) == NAtoms(t) = 1 /\ t.atoms[1].hc = 0
+HasTok(C, p) == ~SingleNodeFragment(Tpl(C, p[1])) /\ TouchedBy(Tpl(C, p[1]), p[2]) # {}
+TokOf(C, p) == LET t == Tpl(C, p[1]) js == TouchedBy(t, p[2]) IN t.marks[CHOOSE j \in js : \A j2 \in js : j2 <= j].c
+DBonds(C) ==
+  UNION {{<<<<k, b[1]>>, <<k, b[2]>>, b[3]>> : b \in Tpl(C, k).bonds} : k \in {kk \in CoarseIds(C) : IsReal(C, kk)}}
+  \cup UNION {{<<<<x[1], x[2]>>, <<y[1], y[2]>>, 2 * x[4][3]>> :
+                  y \in {z \in DInst(C) : z[1] # x[1] /\ Compatible(x[4], z[4], C.legacy) /\ ILt(<<x[1], x[2]>>, <<z[1], z[2]>>)}} :
+               x \in DInst(C)}
+DNbrs(C, p) == {b[2] : b \in {x \in DBonds(C) : x[1] = p}} \cup {b[1] : b \in {x \in DBonds(C) : x[2] = p}}
+DDouble(C) == {<<IF ILt(b[1], b[2]) THEN b[1] ELSE b[2], IF ILt(b[1], b[2]) THEN b[2] ELSE b[1]>> : b \in {x \in DBonds(C) : x[3] = 4}}
+DLigs(C, a, other) == {x \in DNbrs(C, a) \ {other} : HasTok(C, x)}
+DevDangling(C) == \E d \in DDouble(C) : HasTok(C, d[1]) # HasTok(C, d[2])
+DevConflict(C) == \E d \in DDouble(C) : \E a \in {d[1], d[2]} :
+   LET ls == DLigs(C, a, IF a = d[1] THEN d[2] ELSE d[1]) IN
+   \/ Cardinality(ls) > 2
+   \/ (Cardinality(ls) = 2 /\ \E n1, n2 \in ls : n1 # n2 /\
+         IF (ILt(n1, a) /\ ILt(n2, a)) \/ (ILt(a, n1) /\ ILt(a, n2)) THEN TokOf(C, n1) = TokOf(C, n2) ELSE TokOf(C, n1) # TokOf(C, n2))
+DevRelOf(C, l1, a1, l2) == LET same == TokOf(C, l1) = TokOf(C, l2) IN
+   IF ILt(l1, a1) THEN (IF same THEN "trans" ELSE "cis") ELSE (IF same THEN "cis" ELSE "trans")
+DevRel(C) == UNION { UNION { { <<l1, d[1], d[2], l2, DevRelOf(C, l1, d[1], l2)>>, <<l2, d[2], d[1], l1, DevRelOf(C, l1, d[1], l2)>> } :
+                              l1 \in DLigs(C, d[1], d[2]), l2 \in DLigs(C, d[2], d[1]) } :
+                      d \in {x \in DDouble(C) : HasTok(C, x[1]) /\ HasTok(C, x[2])} }
+InstOfNode(n) == LET m == CHOOSE mm \in Members(n) : TRUE IN <<m[1], m[3]>>
+DevEZExplains(C) ==
+  /\ Dedicated(C)
+  /\ IF DevDangling(C) \/ DevConflict(C) THEN O.outcome = "exc:ValueError"
+     ELSE /\ O.outcome = "ok" /\ NoSharing(O)
+          /\ \A n \in FNodes(O) : n.ez # <<>> => Cardinality(Members(n)) = 1
+          /\ {<<InstOfNode(NodeOf(O, t[1])), InstOfNode(NodeOf(O, t[2])), InstOfNode(NodeOf(O, t[3])), InstOfNode(NodeOf(O, t[4])), t[5]>> :
+                  t \in UNION {{<<x[1], x[2], x[3], x[4], x[5]>> : x \in ToSet(n.ez)} : n \in FNodes(O)}} = DevRel(C)
 
 (* ---------------- C15: stereo information against the uncut molecule ---------------- *)
 (* reftoks = the uncut molecule as one fragment text (atom i of it is reference atom i + 1) *)
@@ -104,6 +149,7 @@ Verdict ==
               C20_Raises |-> (exp # "ok") => O.outcome = exp,
               C20_NoGraph |-> (exp # "ok") => ~ok,
               C11_RejectsBondedVirtual |-> (exp # "ok") => O.outcome = exp,
+              dev_EZ_GlobalIndexOrder |-> ("reftoks" \in DOMAIN T /\ exp = "ok") /\ DevEZExplains(C),
               X_Accepted |-> (exp = "ok") => ok ]
        ELSE
          [ dom |-> TRUE, expected |-> exp, outcome |-> O.outcome, checked |-> TRUE,
@@ -137,6 +183,7 @@ Verdict ==
            C12_Contiguous |-> C12_Contiguous(C, O),
            C12_AtomNames |-> C12_AtomNames(C, O),
            C11_SameMolecule |-> HasTwin => C11_SameMolecule,
+           dev_EZ_GlobalIndexOrder |-> HasStereo /\ DevEZExplains(C),
            C15_PathExists |-> HasStereo => C15_PathExists,
            C15_Relation |-> HasStereo => C15_Relation,
            C15_Chiral |-> HasStereo => C15_Chiral,
